@@ -856,6 +856,10 @@ func scenarioC11(c *hlib.RunCtx) *hlib.Violation {
 	os.MkdirAll(loc, 0777)
 	os.WriteFile(filepath.Join(tele, "mode"), []byte("on 2020-01-01"), 0666)
 	telemetry.Default = telemetry.NewDir(tele)
+	// (while the known finding about oversize reports is listed, nothing but the big
+	// week below may bring a report near the limit)
+	mgen.NoMultiPage = strings.Contains(c.Flag("windows"), "oversize-report")
+	defer func() { mgen.NoMultiPage = false }()
 	n := 2 + t.Draw(5)
 	// Files often share a week (several programs ending on the same day):
 	// approval is per program, and a report mixes them.
